@@ -6,7 +6,8 @@
 
    A cue of the snapshot covers a SCOPE: one region when line positions are written (one cue per region), else all regions.
    - line setting of a scope = the edge of the region that displayAlign selects: top y (before, line alignment start), y + h/2
-     (center), y + h (after, end), in whole percent (nearest integer; a tie may go either way);
+     (center), y + h (after, end), in whole percent (nearest integer; a tie may go either way), limited to the 0..100 of a WebVTT
+     percentage;
    - align setting of a scope = the alignment its paragraphs agree on: when every paragraph of the scope that shows text has the
      same computed alignment, the cue carries it; when they disagree no single setting is right and none is prescribed. *)
 From Coq Require Import Qabs.
@@ -27,9 +28,12 @@ Definition spec_line (r : attrs) : option (Q * text) :=
       else Some (Qplus (lv y) (Qdiv (lv h) (inject_Z 2)), kw_center)
   | _, _, _ => None
   end.
-(* n is the position q in whole percent (nearest integer; the implementation computes q in binary floating point: 1e-6 slack) *)
+(* a WebVTT percentage lies in 0..100: a region edge outside the root container is written as the nearest bound *)
+Definition clamp_q (q : Q) : Q := if Qle_bool q (inject_Z 0) then inject_Z 0 else if Qle_bool (inject_Z 100) q then inject_Z 100 else q.
+(* n is the position q, limited to 0..100, in whole percent (nearest integer; the implementation computes q in binary floating
+   point: 1e-6 slack) *)
 Definition whole_percent (q : Q) (n : Z) : bool :=
-  Qle_bool (Qabs (Qminus q (inject_Z n))) (Qplus (Qmake 1 2) (Qmake 1 1000000)).
+  (0 <=? n) && (n <=? 100) && Qle_bool (Qabs (Qminus (clamp_q q) (inject_Z n))) (Qplus (Qmake 1 2) (Qmake 1 1000000)).
 
 Definition spec_align (p : attrs) : option text :=
   let rtl := match sget (e_styles p) p_Direction with Some (VEnum x) => x =? e_DirectionType_rtl | _ => false end in
@@ -42,8 +46,8 @@ Definition spec_align (p : attrs) : option text :=
   | _ => None
   end.
 
-(* the paragraphs of a snapshot element that show text (a visible character outside ruby), with their alignment *)
-Definition shows_text (e : elem) : bool := existsb (fun x => visible_char (fst x)) (styled_chars plain_style e).
+(* the paragraphs of a snapshot element that show text (a visible character outside ruby annotations), with their alignment *)
+Definition shows_text (e : elem) : bool := existsb (fun x => visible_char (fst x)) (styled_chars false plain_style e).
 Fixpoint paragraph_aligns (e : elem) : list (option text) :=
   match e with
   | Elem a cs =>
